@@ -360,7 +360,7 @@ class NativeFilestore(VirtualFilestore):
         if not file_path.exists():
             raise FileNotFoundError(file_path)
         if checksum_type == ChecksumType.MODULAR:
-            return calc_modular_checksum(file_path)
+            return calc_modular_checksum(file_path, size_to_verify)
         if segment_len == 0:
             raise ValueError("segment length can not be 0")
         crc_obj = self._generate_crc_calculator(checksum_type)
